@@ -22,6 +22,7 @@ import (
 	"com.tuntun.rangers/node/src/utility"
 	"golang.org/x/crypto/sha3"
 	"strings"
+	"sync"
 )
 
 var (
@@ -29,6 +30,7 @@ var (
 	positionKey        = utility.StrToBytes("p")
 	decimalKey         = utility.StrToBytes("d")
 	rpgContractAddress = common.Address{}
+	rpgContractLock    sync.RWMutex
 )
 
 func (self *AccountDB) AddERC20Binding(name string, contract common.Address, position, decimal uint64) bool {
@@ -43,22 +45,30 @@ func (self *AccountDB) AddERC20Binding(name string, contract common.Address, pos
 	return true
 }
 
-func (self *AccountDB) loadContractCache() {
+func (self *AccountDB) loadContractCache() common.Address {
 	address := common.GenerateERC20Binding(common.BLANCE_NAME)
 	value1 := common.BytesToAddress(self.GetData(address, contractKey))
+
+	rpgContractLock.Lock()
 	rpgContractAddress = value1
+	rpgContractLock.Unlock()
+	return value1
 }
 
 func (self *AccountDB) GetERC20Binding(name string) (found bool, contract common.Address, position uint64, decimal uint64) {
 	if 0 == strings.Compare(name, common.BLANCE_NAME) {
-		if 0 == bytes.Compare(rpgContractAddress.Bytes(), common.Address{}.Bytes()) {
-			self.loadContractCache()
+		// the cache is shared by every AccountDB of the process, and blocks are executed concurrently
+		rpgContractLock.RLock()
+		rpgContract := rpgContractAddress
+		rpgContractLock.RUnlock()
+		if 0 == bytes.Compare(rpgContract.Bytes(), common.Address{}.Bytes()) {
+			rpgContract = self.loadContractCache()
 		}
 
 		if common.IsSub() {
-			return true, rpgContractAddress, 4, 18
+			return true, rpgContract, 4, 18
 		}
-		return true, rpgContractAddress, 3, 18
+		return true, rpgContract, 3, 18
 	}
 
 	found = false
